@@ -22,6 +22,49 @@ CLAIMED["C16"] = dict(
          "converted gym space / dm_env spec; gym samples of the spec's dtype are valid. Model Base/Spec.v mirrors specs.py as written "
          "and is tied by correspondence on random specs x boundary values x every method and on every environment's real specs.",
     ref="DESIGN.md §5 C16", tech="Coq proof (induction on nested spec trees) + extracted-model correspondence")
+_ENV_NOTE = TB + " Per-environment theorems exist for the environments listed in the evidence under theorem_files; the others are covered by the generic verified checkers and listed under coverage.not_yet_modelled."
+CLAIMED["C01"] = dict(
+    text="Every timestep emitted by every catalogued configuration of all 23 environments (reset, every step, terminal step) is validated "
+         "against the environment's REAL specs by the extracted Coq `validate` (proved exact in C16); action_spec.generate_value() is a "
+         "member and is accepted by step. Per-environment invariant theorems bound the observed fields where a model exists.",
+    ref="DESIGN.md §5 C01", tech="Coq-verified validate run on implementation timesteps + per-env invariant proofs", note=_ENV_NOTE)
+CLAIMED["C03"] = dict(
+    text="Protocol predicates first_ok/step_ok (Base/TimeStep.v) are evaluated by the extracted model on every timestep of every rollout of "
+         "all 23 environments, including steps after LAST; for modelled environments the model's step is built from restart/transition/"
+         "termination/truncation and satisfies them by proof.",
+    ref="DESIGN.md §5 C03", tech="Coq-verified protocol checker on implementation traces + constructor lemmas", note=_ENV_NOTE)
+CLAIMED["C04"] = dict(
+    text="Per environment: theorem mask = legal for every state satisfying the reachable invariant and every action (GraphColoring so far, "
+         "more as models land), model tied to the code by replaying every transition in the extracted model; verified legal_b evaluated on "
+         "implementation states for every action.",
+    ref="DESIGN.md §5 C04", tech="Coq proof (invariant + mask_iff_legal) + extracted-model correspondence", note=_ENV_NOTE)
+CLAIMED["C05"] = dict(
+    text="Per environment: theorem that an illegal action has exactly the documented effect; tied by correspondence on rollouts that inject "
+         "illegal actions (35% uniform policy, all actions of small spaces).",
+    ref="DESIGN.md §5 C05", tech="Coq proof + extracted-model correspondence with illegal-action injection", note=_ENV_NOTE)
+CLAIMED["C06"] = dict(
+    text="Per environment: feasibility invariant preserved by every legal step (proved), Feasible_b evaluated on implementation states "
+         "under mask-respecting play.",
+    ref="DESIGN.md §5 C06", tech="Coq invariant proof + verified checker on implementation states", note=_ENV_NOTE)
+CLAIMED["C08"] = dict(
+    text="Per environment: telescoping theorem over whole episodes (return = objective of the final state) proved over exact integers/rationals; "
+         "returns of real episodes recomputed from final states.",
+    ref="DESIGN.md §5 C08", tech="Coq proof by induction over episodes + return recomputation on implementation episodes", note=_ENV_NOTE)
+CLAIMED["C09"] = dict(
+    text="The Impl model of each modelled environment predicts every transition (state, reward, step type) of the real environment on all "
+         "catalogued configurations; theorems characterise the Impl model by the declarative rules.",
+    ref="DESIGN.md §5 C09", tech="extracted-model correspondence (every transition) + refinement theorems", note=_ENV_NOTE)
+CLAIMED["C10"] = dict(
+    text="Generators modelled over explicit draws; well-formedness proved for every draw; verified checkers on every reset state of the rollouts.",
+    ref="DESIGN.md §5 C10", tech="Coq proof over all draws + verified checker on reset states", note=_ENV_NOTE)
+CLAIMED["C11"] = dict(
+    text="Extracted limit_ok decides, for every episode of every time-limited configuration (limits 1,2,3,7,default,None), that the first LAST is "
+         "exactly at the limit unless the same keys/actions on an instance with a larger limit end at the same step (other cause); structural "
+         "horizons checked for the others; horizon/time-limit theorems per modelled environment.",
+    ref="DESIGN.md §5 C11", tech="Coq-verified limit checker + differential other-cause oracle + horizon theorems", note=_ENV_NOTE)
+CLAIMED["C12"] = dict(
+    text="Observation = documented view of the state: proved per modelled environment, compared field by field on every transition.",
+    ref="DESIGN.md §5 C12", tech="Coq proof + field-wise correspondence of observations", note=_ENV_NOTE)
 PENDING_REASON = "check under construction in this round (machinery for it is not committed yet)"
 
 
